@@ -13,6 +13,7 @@ HMAC-SM3 is ideal: the theorems quantify over a structure `IdealMAC` whose laws 
 hypotheses (instantiated below to show they are satisfiable), never axioms.
 -/
 import Gotlcp.Lemmas.Cookie
+import Gotlcp.Lemmas.Fragment
 import Gotlcp.Generated.Facts
 import Gotlcp.Tie.Cookie
 
@@ -77,6 +78,8 @@ theorem C18_facts :
     --               if <cond> { …send HVR…; continue }; break`
     ∧ Facts.dtlcp.cookieLoopShape = true ∧ Facts.dtlcp.cookieLoopDropsLeftover = true
     ∧ Facts.dtlcp.cookieWaitTimeoutCalls = []
+    -- readHandshake drops the reassembly buffer of a rebuilt message before delivering it
+    ∧ Facts.dtlcp.cookieRxDeliveredBufferDropped = true
     ∧ Facts.dtlcp.cookieLoopHvrCond =
         "len(clientHello.cookie) == 0 || !verifyCookie(secret, c.remoteAddr.String(), params, clientHello.cookie)"
     ∧ Facts.dtlcp.cookieLoopIssue = "generateCookie(secret, c.remoteAddr.String(), params)"
@@ -276,6 +279,84 @@ example : (decodeCore (encodeBody ⟨0x0101, List.replicate 32 0, [], [], []⟩ 
         (encodeBody ⟨0x0101, List.replicate 32 0, [], [], []⟩ []).length = 64
     ∧ datagramLen Facts.dtlcp.recordHeaderLen Facts.dtlcp.dtlcpHeaderLen (hvrBodyLen macLen) = 60 := by decide
 
+/-! ### fragments of a ClientHello in the cookie phase
+
+The cookie loop answers what `readHandshake` delivers. `message_seq` is not checked on receipt,
+so the only thing that keeps a repeated fragment from making the same ClientHello "arrive" again
+is that the reassembly buffer of a rebuilt message is dropped before the message is delivered
+(`Model.Fragment.apply`, the `erase`; pinned for this tree by `cookieRxDeliveredBufferDropped` in
+`C18_facts`). Then every delivery of a fragmented message consumes its buffer, and a datagram
+that carries less than the whole message into an empty slot delivers nothing: no
+HelloVerifyRequest answers it. -/
+
+theorem frag_lookup_erase (st : Model.Fragment.Pending) (s : Nat) :
+    Model.Fragment.lookup (Model.Fragment.erase st s) s = none := by
+  unfold Model.Fragment.lookup Model.Fragment.erase
+  rw [Option.map_eq_none_iff, List.find?_eq_none]
+  intro x hx
+  have := (List.mem_filter.mp hx).2
+  simpa using this
+
+/-- a rebuilt (fragmented) message is delivered once: afterwards no buffer is pending under its
+`message_seq`, whatever was pending before -/
+theorem C18_fragment_buffer_consumed (strict : Bool) (st st' : Model.Fragment.Pending)
+    (m : Model.Fragment.FragMsg) (d : Bytes) (hfrag : m.len < m.total ∨ m.off > 0)
+    (h : Model.Fragment.apply strict st m = (st', .deliver d)) :
+    Model.Fragment.lookup st' m.seq = none := by
+  unfold Model.Fragment.apply at h
+  have hc : (decide (m.len < m.total) || decide (m.off > 0)) = true := by
+    cases hfrag with
+    | inl a => simp [a]
+    | inr a => simp [a]
+  rw [if_pos hc] at h
+  split at h
+  · simp at h
+  · dsimp only at h
+    split at h
+    · simp at h
+    · simp only [Prod.mk.injEq] at h
+      rw [← h.1]; exact frag_lookup_erase st m.seq
+
+/-- a datagram that carries less than the whole message, with no buffer pending under its
+`message_seq` (in particular: any fragment that comes after the message was rebuilt and
+delivered), delivers nothing — `readHandshake` keeps reading and the cookie loop sends nothing -/
+theorem C18_late_fragment_silent (strict : Bool) (st : Model.Fragment.Pending)
+    (m : Model.Fragment.FragMsg) (hnone : Model.Fragment.lookup st m.seq = none) (hlt : m.len < m.total) :
+    (Model.Fragment.apply strict st m).2 = .cont := by
+  unfold Model.Fragment.apply
+  have hc : (decide (m.len < m.total) || decide (m.off > 0)) = true := by simp [hlt]
+  rw [if_pos hc, hnone]
+  simp only []
+  have hn : (Model.Fragment.newBuf m.total).n = m.total := Lemmas.Fragment.newBuf_n_pos _ (by omega)
+  have hinc : Model.Fragment.complete
+      (Model.Fragment.addFragment (Model.Fragment.newBuf m.total) m.off m.len m.payload).1 = false := by
+    rw [Bool.eq_false_iff]
+    intro hcm
+    rw [Lemmas.Fragment.complete_iff_tb, Lemmas.Fragment.add_n, hn] at hcm
+    -- an index the fragment does not reach
+    let j := if m.off = 0 then m.len else 0
+    have hj : j < m.total := by simp only [j]; split <;> omega
+    have := hcm j hj
+    rw [Lemmas.Fragment.add_tb _ _ _ _ (Lemmas.Fragment.newBuf_wf _), Lemmas.Fragment.newBuf_tb, hn] at this
+    simp only [Bool.false_or, Bool.and_eq_true, decide_eq_true_eq, j] at this
+    split at this <;> omega
+  rw [hinc]
+  rfl
+
+/-- hence: after a fragmented ClientHello was rebuilt and delivered, a repeat of any of its proper
+fragments is not answered (nothing reaches the cookie loop) -/
+theorem C18_repeated_fragment_not_answered (strict : Bool) (st st' : Model.Fragment.Pending)
+    (m m' : Model.Fragment.FragMsg) (d : Bytes) (hfrag : m.len < m.total ∨ m.off > 0)
+    (h : Model.Fragment.apply strict st m = (st', .deliver d))
+    (hseq : m'.seq = m.seq) (hlt : m'.len < m'.total) :
+    (Model.Fragment.apply strict st' m').2 = .cont :=
+  C18_late_fragment_silent strict st' m' (hseq ▸ C18_fragment_buffer_consumed strict st st' m d hfrag h) hlt
+
+/-- a 44-byte hello in fragments 0+40, 40+4: delivered at the second datagram; the repeats of the
+last fragment deliver nothing; a repeat of all fragments delivers it once more -/
+example : rxFragments true 44 [] [(0, 40), (40, 4), (40, 4), (40, 4), (0, 40), (40, 4), (0, 44)]
+    = [false, true, false, false, true, false, true] := by decide
+
 /-! ### what happens before a valid cookie -/
 
 /-- Cookie loop of `serverHandshake` (its shape is pinned by `C18_facts`, including that the
@@ -293,7 +374,7 @@ theorem C18_pre_cookie_actions (inp : List (Bool × Bool)) :
     ∧ (∀ f ∈ commitCalls, f ∉ Facts.dtlcp.cookiePreReachable ∧ f ∈ Facts.dtlcp.cookiePostOnlyReachable)
     ∧ Facts.dtlcp.cookiePreHandshakeWrites = ["helloVerifyRequestMsg"]
     ∧ (∀ f ∈ helloCallbacks, f ∉ Facts.dtlcp.cookiePreReachable ∧ f ∈ Facts.dtlcp.cookiePostOnlyReachable) := by
-  refine ⟨?_, ?_, ?_, C18_facts.2.2.2.2.2.2.2.2.2.2.2.2.2.2.2.1, C18_facts.2.2.2.2.2.2.2.2.2.2.2.2.2.2.1, by decide⟩
+  refine ⟨?_, ?_, ?_, C18_facts.2.2.2.2.2.2.2.2.2.2.2.2.2.2.2.2.1, C18_facts.2.2.2.2.2.2.2.2.2.2.2.2.2.2.2.1, by decide⟩
   · induction inp with
     | nil => intro a ha; simp [runLoop] at ha
     | cons x xs ih =>
